@@ -99,6 +99,14 @@ def expectations(cases, infos, oracle):
             c['info'] = SPECIAL_INFO
             c['args'] = []
             c['exp'] = G.special_expect(c)
+    # sequences of accesses to one cell: every load / store is the documented extending load / truncating store (oracle)
+    ms = [c for c in cases if c['op'] == '@MEMSEQ']
+    sreq = [G.memseq_store_requests(c) for c in ms]
+    sans = iter(oracle.ask([q for rq in sreq for q in rq]))
+    lreq = [G.memseq_load_requests(c, [next(sans) for _ in rq]) for c, rq in zip(ms, sreq)]
+    lans = iter(oracle.ask([q for rq in lreq for q in rq]))
+    for c, rq in zip(ms, lreq):
+        c['exp'] = G.memseq_expect(c, [next(lans) for _ in rq])
     allcases = cases
     cases = [c for c in allcases if not G.is_special(c)]
     # phase A: values of memory sources
